@@ -38,6 +38,9 @@ func (c17) Classes() []sim.Class {
 	}
 	// the read-only mount as the command-line tool offers it (cmd/wazero built from the tree under check)
 	cs = append(cs, sim.Class{Name: "cli-mount", Engine: "compiler", Quick: 24, Thorough: 600, NeedsCLI: true, RunTimeoutSec: 120})
+	for _, e := range []string{"interpreter", "compiler"} {
+		cs = append(cs, sim.Class{Name: "multi-mount", Engine: e, Quick: 300, Thorough: 12000, RunTimeoutSec: 120})
+	}
 	return cs
 }
 
@@ -156,6 +159,9 @@ type roFd struct {
 }
 
 func (c17) Run(t *tape.Tape, cfg sim.Config) (res sim.Result) {
+	if cfg.Class == "multi-mount" {
+		return runMultiMount(t, cfg)
+	}
 	if cfg.Class == "cli-mount" {
 		return runCLIMount(t, cfg)
 	}
